@@ -122,6 +122,8 @@ pub enum MapOp {
     Forget,
     WithCapacity(usize),
     Serde(usize),
+    /// deserialize from a deserializer that offers a boolean: the visitor's `expecting` text
+    SerdeWrong,
 }
 
 #[derive(Clone, Debug)]
@@ -160,6 +162,8 @@ pub enum SetOp {
     Drop,
     Forget,
     Serde(usize),
+    /// deserialize from a deserializer that offers a boolean: the visitor's `expecting` text
+    SerdeWrong,
 }
 
 #[derive(Clone, Debug)]
@@ -374,6 +378,7 @@ fn map_op(a: &[&str]) -> Option<MapOp> {
         ["clone", d] => MapOp::CloneTo(mreg(d)?),
         ["clone_from", d] => MapOp::CloneFrom(mreg(d)?),
         ["serde", d] => MapOp::Serde(mreg(d)?),
+        ["serde_wrong"] => MapOp::SerdeWrong,
         ["eq", o] => MapOp::Eq(mreg(o)?),
         ["from_iter", p, xs] => {
             crate::ctl::with(|c| c.hint_mode = p.parse().unwrap_or(0));
@@ -419,6 +424,7 @@ fn set_op(a: &[&str]) -> Option<SetOp> {
         ["clone", d] => SetOp::CloneTo(sreg(d)?),
         ["clone_from", d] => SetOp::CloneFrom(sreg(d)?),
         ["serde", d] => SetOp::Serde(sreg(d)?),
+        ["serde_wrong"] => SetOp::SerdeWrong,
         ["eq", o] => SetOp::Eq(sreg(o)?),
         ["from_iter", p, xs] => {
             crate::ctl::with(|c| c.hint_mode = p.parse().unwrap_or(0));
